@@ -96,7 +96,18 @@ JudgeDiags(e) ==
   \o (IF e.cfgok THEN (LET g(i) == JudgeDiag(e, "lint:" \o e.lints[i].code, e.lints[i]) IN Cat(g, Len(e.lints), 1))
       ELSE JudgeDiag(e, "cfgerr", e.cfgerr))
 
-Judge(e) == IF e.ev # "obs" THEN << "C09:" \o e.ev >> ELSE JudgeToks(e) \o JudgeNodes(e) \o JudgeDiags(e)
+\* --- the finished graph: its instruction nodes, in order, stand at the places of the parsed statements, in order
+\* (passes that replace a node - an additional return turned into a jump to the exit - must keep its place;
+\* diagnostics take their location from the graph node)
+GraphPlaces(e) ==
+  IF ~e.cfgok \/ Len(e.gnodes) = 0 \/ Len(e.errors) > 0 THEN <<>>
+  ELSE LET ps == SelectSeq(e.nodes, LAMBDA n : n.k \notin {"ProgramEntry", "Label", "Directive", "FuncEntry"})
+           gs == SelectSeq(e.gnodes, LAMBDA n : n.k \notin {"ProgramEntry", "FuncEntry"})
+       IN IF Len(ps) # Len(gs) THEN << "C09:graph-node:count-differs-from-the-statements" >>
+          ELSE IF \E i \in 1..Len(ps) : ps[i].file # gs[i].file \/ ps[i].r0 # gs[i].r0 \/ ps[i].r1 # gs[i].r1
+            THEN << "C09:graph-node:stands-at-another-place-than-its-statement" >> ELSE <<>>
+
+Judge(e) == IF e.ev # "obs" THEN << "C09:" \o e.ev >> ELSE JudgeToks(e) \o JudgeNodes(e) \o JudgeDiags(e) \o GraphPlaces(e)
 
 RECURSIVE Dedup(_, _, _)
 Dedup(s, i, seen) == IF i > Len(s) THEN <<>>
